@@ -22,6 +22,8 @@ def run(ctx):
                       "class Parameters, nor of `obj` in the descriptor methods of Parameter types -- an instance of a class defining __len__ / __bool__ may be falsy and is still an instance", floor=40)
     ctx.rule("R14.w", "namespace model (shared with R13.h), linear and diamond hierarchies: `.param[name]` is the Parameter that governs attribute access -- the constructor pins constants and "
                       "edit_constant unlocks through that lookup, so a lookup that finds another class's (non-constant) Parameter leaves the constant unguarded", floor=1)
+    ctx.rule("R14.s", "slot-set model (shared with R03.v), with a watcher of the slot that raises: Parameter.__setattr__ keeps the value it stored -- edit_constant re-locks with "
+                      "`pobj.constant = True` on its way out, and a store undone because a watcher of `constant` failed would leave the parameter unlocked after the block", floor=1)
     ctx.rule("R14.a", "in Parameter.__set__ every value store is control-dependent on the constant/readonly test; no store lies on a path where "
                       "self.readonly holds, nor where the parameter is constant and the instance is initialized; on that arm the only "
                       "non-raising continuation is the identity case", floor=5)
@@ -325,3 +327,5 @@ def run(ctx):
     instance_tested_by_identity(ctx, "R14.v")
     from checks import namespace_model
     namespace_model.report(ctx, "R14.w")
+    from checks.shared import slot_set_model
+    slot_set_model(ctx, "R14.s")
